@@ -208,7 +208,7 @@ func init() {
 				"setIndex.OpenValueCursor/fwd", "setIndex.OpenValueCursor/rev", "setIndex.OpenKeyCursor/fwd", "setIndex.OpenKeyCursor/rev",
 				"GetRelatedEntitiesCursor/fwd", "GetRelatedEntitiesCursor/rev", "LinkCollection.IterateLinks", "RefCountedLinkCollection.IterateLinks/fwd", "RefCountedLinkCollection.IterateLinks/rev",
 				"setSymbolRuntime.OpenCursor", "setSymbolRuntime.OpenCursor (reopened on a row without the bucket)", "setSymbolRuntime.OpenCursor (reopened on another row)", "IterateIds", "IterateValidIds", "IterateIds(extended child store)", "IterateValidIds(extended child store)", "IterateIds(filtered)", "NewFilteredCursor", "TreeSet.ToCursor/fwd", "TreeSet.ToCursor/rev", "TreeSet.ToCursor (grown after an earlier cursor)/fwd", "TreeSet.ToCursor (grown after an earlier cursor)/rev", "NewUnionSetCursor/fwd", "NewUnionSetCursor/rev",
-				"IteratorMatchingAnyOf/1", "IteratorMatchingAnyOf/2/fwd", "IteratorMatchingAnyOf/2/rev", "IteratorMatchingAllOf/1", "IteratorMatchingAllOf/2", "IteratorMatchingAllOf/3 order 0", "IteratorMatchingAllOf/3 order 3", "IteratorMatchingAllOf/3 order 5", "IteratorMatchingAllOf/3 order 7", "IteratorMatchingAnyOf/3", "IteratorMatchingAnyOf/2 provider reused", "TypedBucket.OpenCursor/fwd while a reverse cursor is open", "TypedBucket.IterateStringList while a reverse list cursor is open", "TypedBucket.OpenTypedCursor/rev while a forward cursor is open", "EmptyCursor", "stackedCursor(dotted set)"}}
+				"IteratorMatchingAnyOf/1", "IteratorMatchingAnyOf/2/fwd", "IteratorMatchingAnyOf/2/rev", "IteratorMatchingAllOf/1", "IteratorMatchingAllOf/2", "IteratorMatchingAllOf/3 order 0", "IteratorMatchingAllOf/3 order 3", "IteratorMatchingAllOf/3 order 5", "IteratorMatchingAllOf/3 order 7", "IteratorMatchingAnyOf/3", "IteratorMatchingAnyOf/2 provider reused", "TypedBucket.OpenCursor/fwd while a reverse cursor is open", "TypedBucket.IterateStringList while a reverse list cursor is open", "TypedBucket.OpenTypedCursor/rev while a forward cursor is open", "EmptyCursor", "stackedCursor(dotted set)", "stackedCursor(dotted set ending in a scalar)"}}
 		},
 	})
 }
@@ -234,7 +234,7 @@ func runC14(c *core.Ctx, idx int) {
 
 	items := &schema.StoreDef{Type: "items", BasePath: []string{"stores"},
 		Fields: []schema.Field{{Name: "roles", Kind: schema.KList}, {Name: "hubs", Kind: schema.KList, FK: "hubs", Derived: true}, {Name: "rhubs", Kind: schema.KList, FK: "hubs", Derived: true},
-			{Name: "tags", Kind: schema.KList}},
+			{Name: "tags", Kind: schema.KList}, {Name: "grp", Kind: schema.KStr}},
 		SetIdx: []string{"roles"},
 		Links:  []schema.LinkDef{{Field: "hubs", Target: "hubs", TargetField: "items"}, {Field: "rhubs", Target: "hubs", TargetField: "ritems", RefCounted: true}}}
 	hubs := &schema.StoreDef{Type: "hubs", BasePath: []string{"stores"},
@@ -287,6 +287,7 @@ func runC14(c *core.Ctx, idx int) {
 		}
 		for i, s := range ne {
 			roles := []string{"r"}
+			pi := i // position among the items
 			i = 0
 			if oddMask&(1<<uint(i14Pos(s))) != 0 {
 				i = 1
@@ -303,7 +304,7 @@ func runC14(c *core.Ctx, idx int) {
 					oddHi = append(oddHi, s)
 				}
 			}
-			ent := &schema.Ent{Id: s, Typ: "items", V: map[string]any{"roles": roles, "tags": []string{"t-" + s, "shared"}, "extra": "x"}}
+			ent := &schema.Ent{Id: s, Typ: "items", V: map[string]any{"roles": roles, "tags": []string{"t-" + s, "shared"}, "grp": fmt.Sprintf("g%d", pi/3), "extra": "x"}}
 			target := ist
 			if i%2 == 1 {
 				target = sc.St("items/xt") // created through the extended child store: has child data
@@ -525,6 +526,25 @@ func runC14(c *core.Ctx, idx int) {
 					c.Violationf("C14 stackedCursor(dotted set): elements differ", info, "got %q expected %q", got, exp)
 				}
 				c.Cover("cursor_kind", "stackedCursor(dotted set)")
+			}
+			// hub.items.grp: one value per item, neighbouring items share theirs: every one of them is an element
+			if gsym, ok := hst.Store.GetSymbol("items.grp").(boltz.RuntimeEntitySetSymbol); ok {
+				var gexp, ggot []string
+				for i := range ne {
+					gexp = append(gexp, fmt.Sprintf("g%d", i/3))
+				}
+				for cur := gsym.OpenCursor(tx, []byte("hub")); cur.IsValid() && len(ggot) <= 100; cur.Next() {
+					ggot = append(ggot, string(cur.Current()))
+				}
+				sort.Strings(ggot)
+				sort.Strings(gexp)
+				c.Eval()
+				if fmt.Sprint(ggot) != fmt.Sprint(gexp) {
+					c.Violationf("C14 stackedCursor(dotted set ending in a scalar): elements differ", info, "got %q expected %q", ggot, gexp)
+				}
+				c.Cover("cursor_kind", "stackedCursor(dotted set ending in a scalar)")
+			} else {
+				c.Violationf("C14 stackedCursor(dotted set ending in a scalar): symbol not available", info, "GetSymbol(items.grp) = %T", hst.Store.GetSymbol("items.grp"))
 			}
 		}
 		return nil
